@@ -293,6 +293,9 @@ const SPECIALS: &[&str] = &[
     "template<typename T> struct Pair { T a; T b; };\nStructuredBuffer<Pair<float> > g;\n[numthreads(1, 1, 1)] void cs() { g[0].a; }\nPipeline P { ComputeShader = cs; }\n",
     "struct Base { int a; float b; };\nstruct Derived : Base { int c; int sum() { return a + c; } };\nint f(int k) { Derived d; d.a = k; d.b = 1.5; d.c = 2; Base b = (Base)d; return d.sum() + b.a; }\n",
     "struct Base { int a; };\nstruct Mid : Base { int b; };\nstruct Leaf : Mid, Base { int c; };\nint f(Leaf l) { return l.a + l.b + l.c; }\n",
+    "void f() { volatile int k; k = 1; k++; k--; --k; k += 2; k <<= 1; int j = k++; volatile float4 v; v.x = 1; v.xy += 2; v = v + 1; }\n",
+    "void f() { volatile float4x4 m; m[1][2] = 2; m._m00 = 1; precise float3 p; p = 1; p.x++; p *= 2; volatile bool b; b = 1; volatile uint u = 3; u = 2; u %= 2; }\n",
+    "static volatile int g = 1;\ngroupshared volatile uint s;\nvoid f() { g = 2; g++; s = 1; s += g; }\n",
     "struct B { int a; int get() { return a; } };\nstruct D : B { int c; };\nint f(D d) { return d.c; }\n",
     "int f(int k) { static int counter = 0; counter += k; static const float table[2] = { 1.0, 2.0 }; return counter + (int)table[k & 1]; }\n",
     "typedef float3 Vec;\ntypedef int Arr4[4];\ntypedef Arr4 Grid[2];\nint total(Arr4 xs) { int s = 0; for (int i = 0; i < 4; i++) { s += xs[i]; } return s; }\nint f() { Grid g = { { 1, 2, 3, 4 }, { 5, 6, 7, 8 } }; Vec v = Vec(1, 2, 3); return total(g[1]) + (int)v.y; }\n",
